@@ -42,10 +42,11 @@ CaseLines(content, variant) ==
     Flatten([i \in 1..Len(names) |->
         << [kind |-> "sum", alg |-> ((i + variant) % 6) + 1, name |-> names[i],
             of |-> IF variant = 3 THEN "other" ELSE IF variant = 5 THEN "plain" ELSE "content",
-            flip |-> CASE variant = 1 -> 1 [] variant = 2 -> 9 [] variant = 4 -> 32 [] OTHER -> 0],
+            flip |-> CASE variant = 1 -> 1 [] variant = 2 -> 9 [] variant = 4 -> 32 [] OTHER -> 0,
+            upper |-> IF variant = 7 THEN 3 ELSE 0],
            [kind |-> "size", name |-> names[i],
             n |-> NatDigits(Len(content) + (IF variant = 6 THEN 1 ELSE 0))] >>])
 Emit == (EmitCases /\ phase = "names" /\ Len(names) >= 1) =>
-          \A content \in Contents : \A v \in 0..6 :
+          \A content \in Contents : \A v \in 0..7 :
              PrintT(<<"CASE", ToJson([op |-> "verify", in |-> [path |-> cs, content |-> content, lines |-> CaseLines(content, v)]])>>)
 =============================================================================
